@@ -13,14 +13,14 @@ Inductive ctarget := TDontCare | TDontCross | TCross.
 Definition cc_matches (cc : bool) (t : ctarget) : bool :=
   match t with TDontCross => negb cc | TCross => cc | TDontCare => false end.
 
-(* if containsCenterMatches(aClipped, l.aCrossingTarget) { bi.seekBeyond(ai); ai.next(); return false }
+(* if !containsCenterMatches(aClipped, l.aCrossingTarget) { bi.seekBeyond(ai); ai.next(); return false }
    for bi.cellID() <= ai.rangeMax { if containsCenterMatches(bClipped, l.bCrossingTarget) { return true }; bi.next() }
    ai.next(); return false *)
 Definition edge_free_branch (a_cc : bool) (ta tb : ctarget) (b_ccs : list bool) : bool :=
-  if cc_matches a_cc ta then false
+  if negb (cc_matches a_cc ta) then false
   else existsb (fun b => cc_matches b tb) b_ccs.
 
-(** the branch with the test the comments (and the C++ original) describe *)
-Definition edge_free_branch_repaired (a_cc : bool) (ta tb : ctarget) (b_ccs : list bool) : bool :=
-  if negb (cc_matches a_cc ta) then false
+(** the branch as it stood before /repo commit 42e42d2 (test on A's cell exchanged) *)
+Definition edge_free_branch_before_42e42d2 (a_cc : bool) (ta tb : ctarget) (b_ccs : list bool) : bool :=
+  if cc_matches a_cc ta then false
   else existsb (fun b => cc_matches b tb) b_ccs.
